@@ -291,12 +291,10 @@ class EnvBoundaryMPS():
                 s0, s1 = bond
                 nx = s0[0]
                 for nz, (op1, op2) in ops.items():
-                    tm[nx].set_operator_(op1)
-                    tm[nx + 1].set_operator_(op2)
+                    _set_nn_operators_(tm, nx, op1, op2, axes_op='k1', axes_string=('k1', 'k4', 'b3'))
                     env.update_env_(nx + 1, to='first')
                     env.update_env_(nx, to='first')
-                    tm[nx].del_operator_()
-                    tm[nx + 1].del_operator_()
+                    _del_nn_operators_(tm, nx)
                     out[(s0, s1) + nz] = env.measure(bd=(nx - 1, nx)) / norm_env
 
         for nx, bond_ops in OPh.items():
@@ -309,12 +307,10 @@ class EnvBoundaryMPS():
                 s0, s1 = bond
                 ny = s0[1]
                 for nz, (op1, op2) in ops.items():
-                    tm[ny].set_operator_(op1)
-                    tm[ny + 1].set_operator_(op2)
+                    _set_nn_operators_(tm, ny, op1, op2, axes_op='b0', axes_string=('b0', 'k2', 'k4'))
                     env.update_env_(ny + 1, to='first')
                     env.update_env_(ny, to='first')
-                    tm[ny].del_operator_()
-                    tm[ny + 1].del_operator_()
+                    _del_nn_operators_(tm, ny)
                     out[(s0, s1) + nz] = env.measure(bd=(ny - 1, ny)) / norm_env
 
         return out
@@ -533,6 +529,23 @@ def _sample_MC_column_uniform(ny, proj_env, st0, st1, psi, projectors, rands):
         else:  # reject
             st1[nx, ny] = ind0
     return vR, Os, vL, accept
+
+
+def _set_nn_operators_(tm, n, op1, op2, axes_op, axes_string):
+    """
+    Insert operators op1 and op2 at sites n and n + 1 of the transfer matrix,
+    together with swaps of their charges (fermionic strings along the transfer matrix), consistently with measure_line.
+    """
+    for ind, op in ((n, op1), (n + 1, op2)):
+        tm[ind].set_operator_(op)
+        tm[ind].add_charge_swaps_(op.n, axes=axes_op)
+    tm[n].add_charge_swaps_(op2.n, axes=axes_string)
+
+
+def _del_nn_operators_(tm, n):
+    for ind in (n, n + 1):
+        tm[ind].del_operator_()
+        tm[ind].del_charge_swaps_()
 
 
 def identity_tm_boundary(tmpo):
